@@ -313,6 +313,38 @@ def ctor_checks():
     return rows
 
 
+# ------------------------------------------------------------------ 4a. learned / factored models derived by the library
+LEARNED = [
+    ('MaximumLikelihoodModel', 'include/AIToolbox/MDP/MaximumLikelihoodModel.hpp'),
+    ('SparseMaximumLikelihoodModel', 'include/AIToolbox/MDP/SparseMaximumLikelihoodModel.hpp'),
+    ('ThompsonModel', 'include/AIToolbox/MDP/ThompsonModel.hpp'),
+    ('CooperativeMaximumLikelihoodModel', 'src/Factored/MDP/CooperativeMaximumLikelihoodModel.cpp'),
+    ('CooperativeThompsonModel', 'src/Factored/MDP/CooperativeThompsonModel.cpp'),
+]
+
+
+def learned_facts():
+    """per learned-model class: (constructor validates the discount: calls setDiscount or carries a guard;
+    setDiscount validates before it assigns)"""
+    rows = []
+    for cls, rel in LEARNED:
+        src = X.strip_comments(X.read(rel))
+        ctors = [d for d in function_bodies(src, cls, cls) if re.search(r'\bdouble\s+discount\b', d[0])]
+        if not ctors:
+            raise X.ExtractError(f'{rel}: constructor of {cls} taking a discount not found')
+        ck = all(bool(re.search(r'\bsetDiscount\s*\(\s*discount\s*\)', b)) or bool(re.search(r'if\s*\([^;{}]*\bdiscount_?\b[^;{}]*\)\s*\{?\s*throw', b))
+                 for _, _, b, _ in ctors)
+        sd = function_bodies(src, cls, 'setDiscount')
+        if len(sd) != 1:
+            raise X.ExtractError(f'{rel}: expected one definition of {cls}::setDiscount, found {len(sd)}')
+        body = sd[0][2]
+        t = re.search(r'\bthrow\b', body); w = re.search(r'\bdiscount_\s*=[^=]', body)
+        if not w:
+            raise X.ExtractError(f'{rel}: {cls}::setDiscount does not assign discount_')
+        rows.append((cls, rel, ck, bool(t) and t.start() < w.start()))
+    return rows
+
+
 # ------------------------------------------------------------------ 4b. sparse 3D setters: is what gets STORED re-validated?
 RECHECK_SITES = [
     ('SparseModel', 'setTransitionFunction', 'include/AIToolbox/MDP/SparseModel.hpp', 'MDP_SparseModel_setT3D'),
@@ -373,6 +405,7 @@ def gen_guards():
     ctors = ctor_checks()
     amdp, arel, aln = amdp_guarded()
     rechecks = sparse_rechecks()
+    learned = learned_facts()
     b = lambda x: 'true' if x else 'false'
     L = ['/- GENERATED by tools/extract_c06.py from the library source — do not edit. -/',
          'import AITB.Model.Guard', 'namespace AITB.Gen.Guards', 'open AITB.Guard', '',
@@ -392,6 +425,8 @@ def gen_guards():
           'def ctorChecksDiscount : List (String × Bool) := [' + ', '.join(f'("{k}", {b(v)})' for k, v, _, _ in ctors) + ']']
     for k, v, rel, ln in ctors:
         L += [f'/-- {rel}:{ln} -/', f'def ctor_{k}_checksDiscount : Bool := {b(v)}']
+    L += ['', '/-- learned / factored model classes: (class, file of setDiscount, constructor validates the discount, setDiscount validates before assigning) -/',
+          'def learnedModels : List (String × String × Bool × Bool) := [' + ', '.join(f'("{c}", "{r}", {b(ck)}, {b(vf)})' for c, r, ck, vf in learned) + ']']
     L += ['', '-- sparse 3D-container setter -> "the rows as stored (sub-threshold entries dropped) are validated again before the commit"']
     for k, v, rel, ln in rechecks:
         L += [f'/-- {rel}:{ln} -/', f'def recheck_{k} : Bool := {b(v)}']
